@@ -434,6 +434,12 @@ def gen_world(seed, profile="greedy", opts=None):
         world["loader"] = {"kind": "batch", "interval": r.choice([1, 3, 7]),
                            "batches": r.choice([2, 3])}
         world["flags"]["workload_update_interval"] = world["loader"]["interval"]
+        rw = random.Random(f"{seed}:loader")
+        # the loader's own window (how far ahead of `now` it delivers) may be wider than the update interval;
+        # with the interval flag unset the simulator asks again right after the last release it was given
+        world["loader"]["window"] = world["loader"]["interval"] * rw.choice([1, 1, 2])
+        if rw.random() < 0.2:
+            world["flags"]["workload_update_interval"] = -1
     ro = random.Random(f"{seed}:node_order")
     for g in graphs:
         if ro.random() < opts.get("p_shuffle_nodes", 0.3):
